@@ -1,13 +1,13 @@
 SPECIFICATION TSpec
 CONSTANTS
-  NA = 2
+  NA = 1
   Rounds = 2
-  PerRound = 1
+  PerRound = 2
   NotifyMode = "token"
   TempApps = {}
-  TwoPhaseApps = {}
+  TwoPhaseApps = {1}
   ExitMode = "recheck"
-INVARIANTS FIFO LockOK
+INVARIANTS FIFO LockOK OneAtATime StageOK
 CONSTRAINT Mark
 POSTCONDITION Accepted
 CHECK_DEADLOCK FALSE
